@@ -40,6 +40,44 @@ def c14(tier, rep):
     E.menu(rep, CAP_MENU, 12 if tier == "quick" else 13, max_errs=11, invariants=["Inv_C14", "Inv_C01"], label="error-limit")
     E.traces(rep, E.record_all(std_sources(tier, 300, 3000), modes=("collect", "stop"), iff=200 if tier == "quick" else 2000), "corpus+gen+noisy")
     E.reuse_pass(rep, E.src_limits() + E.src_corpus() + E.src_limits() + E.src_noisy(100, SEED), "reuse")
+    _stream_rejection(rep, E.src_limits() + E.src_corpus() + E.src_noisy(60 if tier == "quick" else 600, SEED + 5))
+
+
+def _stream_rejection(rep, sources):
+    """The same verdict through the stream layer, whatever is printed: under each of the 8 option sets a source yields parseError envelopes exactly when the
+    parser (whose verdict and errors the traces validate against the specification) rejects it, one envelope per error with its line, column and message."""
+    import stream as S
+    from gherkin.parser import Parser
+    from gherkin.token_matcher import TokenMatcher
+    allopts = [(a, b, c) for a in (True, False) for b in (True, False) for c in (True, False)]
+    srcs = [(n, s) for n, s, d in sources if d == "en" and not E.known_finding_input(s)]
+    from gherkin.errors import CompositeParserException
+    direct = []
+    for n, s in srcs:
+        try:
+            Parser().parse(s, TokenMatcher("en"))
+            direct.append([])
+        except CompositeParserException as x:
+            direct.append([(e.location["line"], e.location.get("column"), str(e)) for e in x.errors])
+        except Exception:  # noqa: BLE001 -- judged by the trace checks
+            direct.append(None)
+    for opts in allopts:
+        segs = S.run_stream([(n + ".feature", s) for n, s in srcs], opts)
+        for (n, s), o, seg in zip(srcs, direct, segs):
+            rep.case(("stream-rejection", opts, s))
+            if o is None:
+                continue
+            pe = [e["parseError"] for e in seg if "parseError" in e]
+            got = [(e.get("source", {}).get("location", {}).get("line"), e.get("source", {}).get("location", {}).get("column"), e.get("message")) for e in pe]
+            want = o
+            bad = None
+            if bool(pe) != bool(o):
+                bad = "rejected by the parser but not by the stream" if o else "accepted by the parser but rejected by the stream"
+            elif pe and (len(pe) != len(seg) or got != want):
+                bad = "the stream's parseError envelopes are not the parser's errors, one each"
+            if bad:
+                rep.violation({"kind": "stream-rejection"}, {"engine": "stream-rejection", "what": bad, "opts": list(opts), "source": s, "parser_errors": want[:3], "stream": got[:3]})
+                break
 
 
 def fuzz_sources(n, seed):
